@@ -11,6 +11,7 @@ import (
 	"fmt"
 	"os/exec"
 	"path/filepath"
+	"reflect"
 	"sort"
 	"strconv"
 	"strings"
@@ -41,6 +42,7 @@ type c01Case struct {
 	Trace   []string
 	Default uint32
 	ArgSeed uint64
+	Later   []c01Case // policies built after this one while its filter is still held (it is installed only afterwards)
 }
 
 var (
@@ -292,6 +294,19 @@ func c01RunPolicy(c c01Case, rec *vh.Recorder) error {
 	if len(f) == 0 {
 		return vh.Violf("C01:empty-filter", "empty filter; %s", c01Brief(c))
 	}
+	if len(c.Later) > 0 {
+		snap := append(f[:0:0], f...)
+		for _, l := range c.Later {
+			lb := libseccomp.Builder{Allow: l.Allow, Trace: l.Trace, Default: libseccomp.Action(l.Default)}
+			if _, err := lb.Build(); err != nil {
+				return vh.Violf("C01:build-error", "Build failed for an expressible policy: %v; %s", err, c01Brief(l))
+			}
+		}
+		if !reflect.DeepEqual(snap, f) {
+			return vh.Violf("C01:filter-changed-by-later-build", "the filter built for this policy was %d instructions and reads differently after %d later Build calls; %s", len(snap), len(c.Later), c01Brief(c))
+		}
+		rec.Class("held-across-later-builds", 1)
+	}
 	classes := []string{fmt.Sprintf("default=%s", c01DefName(c.Default))}
 	tot := len(c.Allow) + len(c.Trace)
 	switch {
@@ -333,7 +348,23 @@ func TestC01Policy(t *testing.T) {
 			"non-trivial = policy has >=1 allow and >=1 trace name; distinct = distinct (allow order, trace order, default)")
 	rec.Assume("syscall numbering oracle: /usr/include asm/unistd_64.h (362 names); the library's own table is trusted only for the newer names the header lacks")
 	rec.Assume("foreign-ABI behaviour is decided on filter semantics (arch tag / x32 bit), not observed at the kernel: this VM has no int 0x80 / x32 entry")
-	vh.Check(t, rec, c01GenPolicy, func(c c01Case) error { return c01RunPolicy(c, rec) })
+	vh.Check(t, rec, func(rt *rapid.T) c01Case {
+		c := c01GenPolicy(rt)
+		for n := rapid.IntRange(0, 2).Draw(rt, "nlater"); n > 0; n-- {
+			l := c01GenPolicy(rt)
+			if rapid.Bool().Draw(rt, "smaller") && len(l.Allow)+len(l.Trace) > len(c.Allow)+len(c.Trace) {
+				// a later program that is not longer than the held one
+				if len(l.Allow) > len(c.Allow) {
+					l.Allow = l.Allow[:len(c.Allow)]
+				}
+				if len(l.Trace) > len(c.Trace) {
+					l.Trace = l.Trace[:len(c.Trace)]
+				}
+			}
+			c.Later = append(c.Later, l)
+		}
+		return c
+	}, func(c c01Case) error { return c01RunPolicy(c, rec) })
 }
 
 // ---- malformed policies and GetConf ----------------------------------------------------------
